@@ -200,6 +200,11 @@ func leafID(ti tagInfo, t reflect.Type) string {
 			return "dec64:" + p[1] + ":" + p[0]
 		case reflect.Array:
 			return fmt.Sprintf("decflba:%d:%s:%s", t.Len(), p[1], p[0])
+		case reflect.Slice:
+			// []byte with a decimal tag: FIXED_LEN_BYTE_ARRAY sized by the precision
+			prec, _ := strconv.Atoi(p[1])
+			size := int(math.Ceil((math.Log10(2) + float64(prec)) / math.Log10(256)))
+			return fmt.Sprintf("decflba:%d:%s:%s", size, p[1], p[0])
 		}
 	}
 	if ti.has("date") {
@@ -362,6 +367,13 @@ func defaultV(n *ref.Node) ref.V {
 	return ref.V{}
 }
 
+// NilForZeroFixed makes Fill hand a nil slice to []byte fields mapped to a
+// FIXED_LEN_BYTE_ARRAY column when the value is all zeros. Only the typed write
+// path accepts that (it stores a zero placeholder); the reflection paths reject
+// a slice of the wrong length, so checks comparing paths leave this off and
+// checks of the typed path alone (C17) switch it on.
+var NilForZeroFixed = false
+
 // unitNanos returns the number of nanoseconds per unit of a ts:/time: leaf id.
 func unitNanos(id string) int64 {
 	switch {
@@ -443,6 +455,17 @@ func fillLeaf(rv reflect.Value, l ref.Leaf, v ref.V) {
 	case reflect.String:
 		rv.SetString(string(v.B))
 	case reflect.Slice:
+		if l.Phys == ref.FLBA && NilForZeroFixed {
+			// a fixed-size column fed from a slice: nil stands for the all-zero value
+			zero := true
+			for _, x := range v.B {
+				zero = zero && x == 0
+			}
+			if zero {
+				rv.Set(reflect.Zero(rv.Type()))
+				return
+			}
+		}
 		b := make([]byte, len(v.B))
 		copy(b, v.B)
 		rv.SetBytes(b)
@@ -549,6 +572,9 @@ func extractLeaf(rv reflect.Value, l ref.Leaf) ref.V {
 	case reflect.String:
 		return ref.V{B: []byte(rv.String())}
 	case reflect.Slice:
+		if l.Phys == ref.FLBA && rv.Len() == 0 {
+			return ref.V{B: make([]byte, l.Len)}
+		}
 		return ref.V{B: append([]byte{}, rv.Bytes()...)}
 	case reflect.Array:
 		b := make([]byte, rv.Len())
